@@ -1,6 +1,13 @@
 #!/bin/sh
-# builds the model runner from the extracted model.ml + hand-written io.ml / driver.ml
+# ./build.sh <runner> … — builds ocaml/<runner>/runner from the extracted <runner>/model.ml(i), the shared
+# hand-written common/io.ml, common/driver.ml, common/main.ml and the runner's own cmd_*.ml files.
 set -e
 cd "$(dirname "$0")"
-ocamlfind ocamlopt -O3 -w -a -package str model.mli model.ml io.ml driver.ml $(ls cmd_*.ml 2>/dev/null) main.ml -o model_runner 2>/dev/null || \
-ocamlfind ocamlopt -w -a model.mli model.ml io.ml driver.ml $(ls cmd_*.ml 2>/dev/null) main.ml -o model_runner
+[ $# -gt 0 ] || set -- $(for d in */; do d=${d%/}; [ "$d" != common ] && [ -f "$d/model.ml" ] && echo "$d"; done)
+for r in "$@"; do
+  ( cd "$r"
+    cp ../common/io.ml ../common/driver.ml ../common/main.ml .
+    ocamlfind ocamlopt -O3 -w -a model.mli model.ml io.ml driver.ml $(ls cmd_*.ml) main.ml -o runner 2>/dev/null || \
+    ocamlfind ocamlopt -w -a model.mli model.ml io.ml driver.ml $(ls cmd_*.ml) main.ml -o runner
+    rm -f io.ml driver.ml main.ml *.cmi *.cmx *.o )
+done
